@@ -52,6 +52,14 @@ CLAIMED['C15'] = ('TLC-generated documents with/without properties parsed under 
                   'DesignOptionNeutral checked by TLC on every generated document',
                   'trusted: TLC, pv/surface.py, pv/project.py',
                   'DESIGN.md 5 (C15)')
+CLAIMED['C02'] = ('TLC-generated models; design-level RoundTripButRefOrder / FixpointHolds on DbmlOut!RenderDecl composed with Doc!ParseDoc; '
+                  'database parsed and API-built, rendered, re-parsed, re-rendered; TLC compares projections clause by clause (TraceDbml.tla) '
+                  'with named deviations for the listed known findings',
+                  'the renderer is specified as a function from models to documents, so the round trip is the composition of two '
+                  'specified machines; TLC checks it on every generated model and validates the real render/parse/render cycle of the '
+                  'parsed and the API-built database against it; pinned as-built deviations are named actions with guards',
+                  'trusted: TLC, pv/builder.py, pv/project.py, pv/surface.py',
+                  'DESIGN.md 2.5, 5 (C02), 7')
 NOT_YET = {}
 
 def main():
